@@ -7,6 +7,7 @@ import (
 	"bufio"
 	"fmt"
 	"io"
+	"os"
 	"os/exec"
 	"strconv"
 	"strings"
@@ -382,8 +383,14 @@ func (s *Solver) runOn(kind string, script string, vars []*Term, wantModel bool)
 		delete(s.procs, kind)
 	}
 	s.stats.add(kind, out.r, time.Since(start), out.isErr)
+	if dir := os.Getenv("VCHECK_SLOWDUMP"); dir != "" && time.Since(start) > 5*time.Second {
+		slowN++
+		os.WriteFile(fmt.Sprintf("%s/slow-%s-%d-%d.smt2", dir, kind, os.Getpid(), slowN), []byte(script+"(check-sat)\n"), 0o644)
+	}
 	return out.r, out.m, out.isErr
 }
+
+var slowN int
 
 // Check decides satisfiability of the conjunction.
 func (s *Solver) Check(asserts []*Term, wantModel bool) (SatResult, Model) {
